@@ -55,7 +55,7 @@ def gen_session(r, tier, force=None):
     opts = dict(multi=r.choice([0, 1, 2, 3, 1000, 1000]), cycle=int(r.random() < 0.3),
                 layout=r.choice(['default', 'default', 'reverse', 'reverse-list']),
                 rows=r.choice([8, 10, 12, 16, 24]), cols=r.choice([24, 30, 40, 60, 80]),
-                info=r.choice(['default', 'default', 'inline', 'hidden']), sep=int(r.random() < 0.75),
+                info=r.choice(['default', 'default', 'inline', 'hidden', 'inline-right', 'right']), sep=int(r.random() < 0.75),
                 hscroll=int(r.random() < 0.8), keepright=int(r.random() < 0.2), hoff=r.choice([10, 10, 0, 3, 25]),
                 exact=int(r.random() < 0.15), hlines=hl, header=header,
                 pointer=r.choice(['', '', '>', '=>']), marker=r.choice(['', '', '*', '+']),
@@ -118,6 +118,18 @@ def gen_session(r, tier, force=None):
         mid.append([(r.choice(['down', 'up', 'put']), None)] if r.random() < 0.5 else [('put', 'e')])
         mid = [[('put', 'o')] if st[0] == ('put', None) else st for st in mid]
         steps = steps[:r.randint(0, 3)] + mid + steps[:r.randint(0, 2)]
+    if force == 'prompt' or (force is None and r.random() < 0.08):
+        # actions that repaint the prompt row only (cursor motion in the query, change-prompt): whatever else the
+        # info style puts on that row must still be there afterwards
+        opts['info'] = r.choice(['inline-right', 'inline-right', 'inline', 'right', 'default'])
+        if force == 'prompt':
+            opts['sep'] = r.choice([1, 1, 0])
+        lines = lines[:12] or ['apple', 'banana', 'cherry']
+        mid = [[('put', r.choice(['a', 'e', 'an']))]]
+        for _ in range(r.randint(1, 4)):
+            mid.append(r.choice([[('backward-char', None)], [('forward-char', None)], [('beginning-of-line', None)], [('end-of-line', None)],
+                                 [('backward-word', None)], [('forward-word', None)], [('change-prompt', r.choice(['> ', 'P> ', '? ']))]]))
+        steps = steps[:r.randint(0, 2)] + mid + [st for st in steps[:r.randint(0, 2)]]
     return dict(opts=opts, lines=lines, steps=steps)
 
 
@@ -236,7 +248,7 @@ def drv_screens(tier, seed, ctx):
     from vcheck import evaluate
     n = 48 if tier == 'quick' else 700
     r = random.Random(seed * 15485863 + 3)
-    scs = [gen_session(r, tier, force='input' if i < 6 else 'fit' if i < 12 else None) for i in range(n)]
+    scs = [gen_session(r, tier, force='input' if i < 6 else 'fit' if i < 12 else 'prompt' if i < 18 else None) for i in range(n)]
     notes = []
 
     def work(sc):
